@@ -80,8 +80,8 @@ fn gen_tables(r: &mut Rng, o: &Opts, no_date_x: bool, dup: bool) -> (Catalog, St
         let n = out.len(); (out, n)
     } else { (rows0, n0) };
     let cuts0 = if dup && n0 >= 2 { let k = 1 + r.below(4.min(n0 as u64)) as usize; let base = n0 / k; let mut v = vec![base; k]; v[k - 1] += n0 - base * k; v } else { cut(r, n0) };
-    let t0 = TableSpec { name: "t0".into(), cols: vec![mkcol("id0", ColTy::I64, 0, !dup), mkcol("k0", kty, k0n, false), mkcol("x0", xty, x0n, false), mkcol("v0", ColTy::I64, v0n, false)], cuts: cuts0, rows: rows0 };
-    let t1 = TableSpec { name: "t1".into(), cols: vec![mkcol("id1", ColTy::I64, 0, true), mkcol("k1", kty, k1n, false), mkcol("y1", xty, y1n, false), mkcol("w1", ColTy::I64, w1n, false)], cuts: cut(r, n1), rows: rows1 };
+    let t0 = TableSpec { cluster: None, name: "t0".into(), cols: vec![mkcol("id0", ColTy::I64, 0, !dup), mkcol("k0", kty, k0n, false), mkcol("x0", xty, x0n, false), mkcol("v0", ColTy::I64, v0n, false)], cuts: cuts0, rows: rows0 };
+    let t1 = TableSpec { cluster: None, name: "t1".into(), cols: vec![mkcol("id1", ColTy::I64, 0, true), mkcol("k1", kty, k1n, false), mkcol("y1", xty, y1n, false), mkcol("w1", ColTy::I64, w1n, false)], cuts: cut(r, n1), rows: rows1 };
     let desc = format!("kty:{} xty:{} k0null:{} x0null:{} k1null:{} y1null:{} n0:{} n1:{}{}", kty.name(), xty.name(), k0n, x0n, k1n, y1n,
                        if n0 == 0 { "0" } else if n0 < 5 { "1-4" } else { "5+" }, if n1 == 0 { "0" } else if n1 < 5 { "1-4" } else { "5+" },
                        if dup && n0 >= 2 { " outer:dup-rows" } else { "" });
@@ -235,7 +235,7 @@ fn witness_cases() -> Vec<(Value, Value)> {
     let i = ival;
     let table = |t: usize, xty: ColTy, rows: Vec<Vec<Val>>, cuts: Vec<usize>| {
         let (n, k, x, v) = if t == 0 { ("id0", "k0", "x0", "v0") } else { ("id1", "k1", "y1", "w1") };
-        TableSpec { name: format!("t{}", t), cols: vec![mkcol(n, ColTy::I64, 0, true), mkcol(k, ColTy::I64, 50, false), mkcol(x, xty, 50, false), mkcol(v, ColTy::I64, 0, false)], cuts, rows }
+        TableSpec { cluster: None, name: format!("t{}", t), cols: vec![mkcol(n, ColTy::I64, 0, true), mkcol(k, ColTy::I64, 50, false), mkcol(x, xty, 50, false), mkcol(v, ColTy::I64, 0, false)], cuts, rows }
     };
     let base = Form { kind: "in", neg: false, corr_eq: false, corr_noneq: None, flip: false, local: "none", place: "where", agg: AggFn::CountStar, cmp: BinOp::Eq,
                       zero_lhs: false, row_pick: "const", unq: false, narrow: false };
